@@ -147,11 +147,51 @@ Proof.
   - apply good_bind; [apply good_construct_one; exact I|]. intros s1 I1. apply IH. exact I1.
 Qed.
 
+Lemma good_append : forall s i e, Inv c s -> good c s (set_append c s i e) true.
+Proof.
+  intros s i e I. unfold set_append. destruct (nth_error (sets s) i); [apply good_insert; exact I|].
+  apply good_same; auto. discriminate.
+Qed.
+
+Lemma good_remove_each : forall es s i, Inv c s -> good c s (remove_each c s i es) false.
+Proof.
+  induction es as [|e r IH]; intros s i I; simpl.
+  - split; auto. split; [discriminate|intro; discriminate].
+  - apply good_bind; [apply good_weaken; apply good_remove; exact I|]. intros s1 I1. apply IH. exact I1.
+Qed.
+
+Lemma good_extend_loop : forall es s i added, Inv c s -> good c s (extend_loop c s i es added) false.
+Proof.
+  induction es as [|e r IH]; intros s i added I; simpl.
+  - split; auto. split; [discriminate|intro; discriminate].
+  - destruct (good_append s i e I) as [I1 [X1 _]]. destruct (set_append c s i e) as [s1 o1]. simpl in I1, X1.
+    destruct o1 as [|v|x].
+    + destruct (IH s1 i (e :: added) I1) as [A [B _]]. split; auto. split; auto. intro; discriminate.
+    + destruct (IH s1 i (e :: added) I1) as [A [B _]]. split; auto. split; auto. intro; discriminate.
+    + destruct (good_remove_each added s1 i I1) as [I2 [X2 _]].
+      destruct (remove_each c s1 i added) as [s2 o2]. simpl in I2, X2.
+      destruct o2; (split; [exact I2|]; split; [assumption|intro; discriminate]).
+Qed.
+
+Lemma good_set_extend : forall s i es, Inv c s -> good c s (set_extend c s i es) false.
+Proof.
+  intros s i es I. unfold set_extend. destruct (order_of s i); [apply good_extend_loop; exact I|].
+  apply good_weaken. apply good_same; auto. discriminate.
+Qed.
+
 Lemma good_set_value : forall s i es, Inv c s -> good c s (set_value c s i es) false.
 Proof.
-  intros s i es I. unfold set_value. apply good_bind.
+  intros s i es I. unfold set_value. destruct (order_of s i) as [old|].
+  2:{ apply good_weaken. apply good_same; auto. discriminate. }
+  apply good_bind.
   - apply good_weaken. apply good_delslice. exact I.
-  - intros s1 I1. apply good_add_each. exact I1.
+  - intros s1 I1. destruct (good_set_extend s1 i es I1) as [I2 [X2 _]].
+    destruct (set_extend c s1 i es) as [s2 o2]. simpl in I2, X2. destruct o2 as [|v|x].
+    + split; auto. split; auto. intro; discriminate.
+    + split; auto. split; auto. intro; discriminate.
+    + destruct (good_set_extend s2 i old I2) as [I3 [X3 _]].
+      destruct (set_extend c s2 i old) as [s3 o3]. simpl in I3, X3.
+      destruct o3; (split; [exact I3|]; split; [assumption|intro; discriminate]).
 Qed.
 
 Lemma good_clear : forall s i, Inv c s -> good c s (set_clear s i) false.
